@@ -311,7 +311,7 @@ def gen_cell_body(rng, dirty=True):
     inner = [f't{i}' for i in range(rng.randint(0, 3))]
     for z in inner + outs:
         if rng.random() < 0.06:
-            continue                                 # undefined output / internal signal (IndexError if read by one gate)
+            continue                                 # undefined output / internal signal (IndexError if read by one gate before the fix of D38)
         kind = rng.choice(['AND2', 'OR2', 'INV1', 'BUF1', 'XOR2', 'MUX21', 'DFF', 'LATCH', 'NAND3', '__const0__', 'AOI21'])
         ar = 0 if kind.startswith('__') else rng.randint(1, 3)
         src = sigs + ([rng.choice(['u', 'v'])] if q(0.1) else [])          # sometimes an undriven signal
